@@ -116,3 +116,25 @@ func vh_C13_batch_argument_counts() {
 	p2 := vCatch(func() { ok, valid, err = VerifyBatch(vReader("entropy2"), nil, nil, nil, &Options{}) })
 	vAssert(!p2 && vIsNilErr(err) && ok && len(valid) == 0, "empty batch: no error, vacuously true, no entries")
 }
+
+// C13 (batch): malformed entries of every kind (short / long / nil key, short / long / nil signature) at the
+// first, middle or last position never make VerifyBatch panic and never produce an error; the entry reports
+// false.  n = 2 exercises the one-by-one remainder path, n = 5 the batch path with its fallback.
+func vh_C13_batch_malformed_entries() {
+	n := 2 + 3*vCase(0, 1)
+	kind := vCase(1, 7)
+	pos := 0
+	switch vCase(0, 2) {
+	case 1:
+		pos = n / 2
+	case 2:
+		pos = n - 1
+	}
+	r := vBatchRun(n, pos, kind, 0)
+	vAssert(!r.panicked, "VerifyBatch never panics on a malformed entry")
+	if !r.entropyOK {
+		return
+	}
+	vAssert(vIsNilErr(r.err) && len(r.valid) == n, "malformed entries are not an error")
+	vAssert(!r.valid[pos] && !r.ok, "the malformed entry reports false")
+}
